@@ -44,6 +44,26 @@ def comprehension_cases(rng, n):
     return cases
 
 
+def exit_cases():
+    """return / break / continue in their operand-free forms"""
+    return [
+        ("def f() return; f()", ('text', "NULL")), ("def f() do return; end; f()", ('text', "NULL")), ("def f() do 1; return; end; f()", ('text', "NULL")),
+        ("def f(x) do if x then return; 5 end; [f(TRUE), f(FALSE)]", ('text', "[NULL, 5]")), ("return;", ('text', "NULL")), ("1; return;", ('text', "NULL")),
+        ("def f() do for x in [1, 2] do if x == 2 then return; end; 9 end; f()", ('text', "NULL")), ("def f() do return 7; end; f()", ('text', "7")),
+        ("def f() do def r = []; for x in [1, 2, 3] do if x == 2 then continue; append(r, x); end; r end; f()", ('text', "[1, 3]")),
+        ("def f() do def r = []; for x in [1, 2, 3] do if x == 2 then break; append(r, x); end; r end; f()", ('text', "[1]")),
+        ("def r = []; for x in [1, 2] do for y in [1, 2] do if y == 2 then break; append(r, [x, y]) end end; r", ('text', "[[1, 1], [2, 1]]")),
+        ("def r = []; for x in [1, 2] do for y in [1, 2] do if y == 1 then continue; append(r, [x, y]) end end; r", ('text', "[[1, 2], [2, 2]]")),
+        ("def outer() do def inner() do return 1; end; inner(); 2 end; outer()", ('text', "2")),
+        ("def r = []; def i = 0; while i < 5 do i += 1; if i == 2 then continue; if i == 4 then break; append(r, i) end; r", ('text', "[1, 3]")),
+        ("def r = []; for c in 'abc' do if c == 'c' then continue; append(r, c) end; append(r, 'after'); r", ('text', "['a', 'b', 'after']")),
+        ("def r = []; for k in [1, 2] do for c in 'xy' do if c == 'y' then continue; append(r, c + string(k)) end; append(r, k) end; r", ('text', "['x1', 1, 'x2', 2]")),
+        ("def f() do for c in 'ab' do if c == 'b' then continue; end; 'done' end; f()", ('text', "'done'")),
+        ("def r = []; for x in <<3, 1, 2>> do if x == 2 then continue; append(r, x) end; r", ('text', "[1, 3]")),
+        ("def r = []; for v in values <<<'b' => 1, 'a' => 2>>> do if v == 2 then continue; append(r, v) end; append(r, 0); r", ('text', "[1, 0]")),
+    ]
+
+
 def run(ctx):
     ctx.rule = ("generated loop nests (depth <= 3) over lists, sets, maps (keys/values/entries) and strings with break/continue/return at every statement position, while loops, if/elif/else chains and every comprehension form; in-program trace; non-trivial = a loop with an exit statement or a comprehension over a set/map; each program is run on the implementation, on a reference interpreter written from the language rules "
                 "(value + printed trace must match) and on the Lean model evaluator; plus every simple / product / parallel list, set and map comprehension "
@@ -51,6 +71,7 @@ def run(ctx):
                 "condition, against the equivalent explicit loop")
     progcheck.run_profiles(ctx, ["control", "mixed"], 3000 if ctx.thorough else 500)
     progcheck.run_templates(ctx, comprehension_cases(ctx.rng, None if ctx.thorough else 500), "comprehension-vs-loop")
+    progcheck.run_templates(ctx, exit_cases(), "exit-statements")
     common.replay_known(ctx)
 
 
